@@ -288,8 +288,11 @@ def build_tasks(ctx):
         fam = FAMILY_OF[seed.split(".")[0]]
         fls = both if (not q or fam in ("pair", "loose")) else ("rust",)
         if not f["targets"]:  # crafted, complete artefacts: one case per operation (a bomb per operation, not per case)
-            ops = {"pair": H.PAIR_OPS, "loose": H.LOOSE_OPS}[fam]
-            add("%s:attacks" % fam, both, [(fam, seed, None, (None, (op,))) for op in ops])
+            ops = {"pair": H.PAIR_OPS, "loose": H.LOOSE_OPS}.get(fam)
+            if ops:
+                add("%s:attacks" % fam, both, [(fam, seed, None, (None, (op,))) for op in ops])
+            else:
+                add("%s:attacks" % fam, both, [(fam, seed, None, (None, None))])
             continue
         if q and seed in ("cgraph.git", "midx.git", "bitmap.git"):
             continue  # quick: the dulwich-written variant only
